@@ -1268,13 +1268,56 @@ func (g *gen) forStmt(depth int, rets []*Type) stmt {
 	body := g.block(g.r.Range(1, max(1, g.cfg.MaxStmts/2)), depth-1, rets, false, false)
 	g.inLoop--
 	g.pop()
+	// every third loop is followed by a counting loop whose init clause ASSIGNS
+	// a variable of an outer scope (for v = A; v < B; v++ {}), half of them
+	// with zero iterations; v is read by whatever follows. The choices come
+	// from a side stream derived from the loop itself, not from the
+	// generator's stream.
+	side := vrt.NewRng(vrt.Hash64("assign-form loop", iv, fmt.Sprint(k, len(body))))
+	var extra, mix string
+	var extraVar, mixVar string
+	var extraVal *big.Int
+	if outer := g.varsOf(func(v variable) bool { return v.t.Integer() && v.t.Bits >= 8 && !v.ro && !v.loop }); len(outer) > 1 && side.Intn(3) == 0 {
+		v := vrt.Pick(side, outer)
+		// the loop leaves a compile-time constant in v; it is mixed with
+		// another variable of the same type at once, so that what follows
+		// computes on a run-time value (constant folding is C12's subject)
+		var same []variable
+		for _, u := range outer {
+			if u.name != v.name && u.t.Equal(v.t) {
+				same = append(same, u)
+			}
+		}
+		if len(same) > 0 {
+			u := vrt.Pick(side, same)
+			a, b := side.Intn(7), side.Intn(7)
+			extra = fmt.Sprintf("for %s = %d; %s < %d; %s++ {", v.name, a, v.name, b, v.name)
+			mix = fmt.Sprintf("%s = %s ^ %s", v.name, v.name, u.name)
+			extraVar, mixVar, extraVal = v.name, u.name, big.NewInt(int64(max(a, b)))
+			g.feat["for-init-assigns-outer-variable"] = true
+			if a >= b {
+				g.feat["for-with-zero-iterations"] = true
+			}
+		}
+	}
 	kids := func() []string {
 		lines := []string{fmt.Sprintf("for %s := 0; %s < %d; %s++ {", iv, iv, k, iv)}
 		lines = append(lines, renderBlock(body)...)
-		return append(lines, "}")
+		lines = append(lines, "}")
+		if extra != "" {
+			lines = append(lines, extra, "}", mix)
+		}
+		return lines
 	}
 	g.feat["for"] = true
 	return stmt{kids: kids, exec: func(en *env) bool {
+		if extra != "" {
+			defer func() {
+				if p := en.get(extraVar); p != nil {
+					p.I = new(big.Int).Xor(extraVal, en.get(mixVar).I)
+				}
+			}()
+		}
 		for i := 0; i < k; i++ {
 			en.push()
 			en.def(iv, Val{T: Int(32), I: big.NewInt(int64(i))})
